@@ -21,7 +21,9 @@ def build(spec, mapping=True):
     holder_attrs = {}
     nonleaf = set(b_ for c in spec['classes'] for b_ in c['bases'])
     for i, c in enumerate(spec['classes']):
-        ns = {'v%d' % i: orm.Optional(int)}
+        ns = {'v%d' % i: orm.Optional(int), '__module__': __name__}
+        if not c['bases']:
+            ns['inmany%d' % i] = orm.Set('Holder', reverse='many%d' % i)          # many-to-many collection typed as the root
         if not c['bases'] or i in nonleaf:
             # a reference typed as this class: roots (all routes) and every other class that has subclasses (seed route)
             ns['holders%d' % i] = orm.Set('Holder', reverse='ref%d' % i)
@@ -34,13 +36,20 @@ def build(spec, mapping=True):
             ns['_discriminator_'] = c['discr']
         bases = tuple(classes[b] for b in c['bases']) or (db.Entity,)
         classes.append(Meta('K%d' % i, bases, ns))
+        globals()['K%d' % i] = classes[-1]                                        # importable by name: needed for pickling
     hns = {name: orm.Optional(classes[r], reverse='holders%d' % r) for name, r in holder_attrs.items()}
+    for r in roots: hns['many%d' % r] = orm.Set(classes[r], reverse='inmany%d' % r)
+    hns['links'] = orm.Set('Link', reverse='h')
+    hns['__module__'] = __name__
     Holder = Meta('Holder', (db.Entity,), hns)
+    Link = Meta('Link', (db.Entity,), {'h': orm.Optional(Holder, reverse='links'), '__module__': __name__})
+    globals()['Holder'] = Holder; globals()['Link'] = Link
     if mapping:
         db.generate_mapping(create_tables=True)
     b = Built()
     b.db, b.classes, b.Holder, b.roots, b.orm, b.spec = db, classes, Holder, roots, orm, spec
     b.ref_classes = sorted(holder_attrs.values())
+    b.Link = Link
     return b
 
 
@@ -79,6 +88,8 @@ def populate(b, per_class=2):
     {holder pk: (reference class, root, pk)}"""
     created, holders = {}, {}
     b.seed_holders = {}
+    b.links = {}            # Link pk -> holder pk (for every seed holder): chain Link.h -> Holder.ref<c> -> object
+    b.many = {}             # root -> (holder pk, [(pk, class id)]): a many-to-many collection holding the first object of every class of the tree
     seen_cls = set()
     with b.orm.db_session:
         objs = []
@@ -100,6 +111,13 @@ def populate(b, per_class=2):
                     if c != r and issubclass(b.classes[i], b.classes[c]):
                         h2 = b.Holder(**{'ref%d' % c: o}); b.orm.flush()
                         b.seed_holders[h2.get_pk()] = (c, r, o.get_pk())
+        for hpk in sorted(b.seed_holders):
+            l = b.Link(h=b.Holder[hpk]); b.orm.flush()
+            b.links[l.get_pk()] = hpk
+        for r in b.roots:
+            members = [(pk, k) for (rr, pk), k in sorted(created.items()) if rr == r and any(s[2] == pk and s[1] == r for s in b.seed_holders.values())]
+            h = b.Holder(**{'many%d' % r: [b.classes[r][pk] for pk, k in members]}); b.orm.flush()
+            b.many[r] = (h.get_pk(), members)
     return created, holders
 
 
@@ -122,3 +140,38 @@ def seed_lookup(b, hpk, e, pkname, pk):
             return (None if o is None else cname(o)), was_seed
         except Exception as ex:
             return 'EXC ' + type(ex).__name__, was_seed
+
+
+def chain_lookup(b, lpk, c):
+    """fresh session: only the Link row is loaded, so its Holder is an unloaded placeholder; link.h.ref<c> has to fetch the Holder row
+    inside Attribute.get (attr.load) and then hand out the referenced object -> class id at first access"""
+    with b.orm.db_session:
+        try:
+            l = b.Link[lpk]
+            o = getattr(l.h, 'ref%d' % c)
+            first = cname(o)
+            again = cname(getattr(l.h, 'ref%d' % c))
+            return first, again
+        except Exception as ex:
+            return 'EXC ' + type(ex).__name__, None
+
+
+def many_iter(b, r):
+    """fresh session: iterate the many-to-many collection typed as root r -> [(pk, class id at first access)]"""
+    hpk, members = b.many[r]
+    with b.orm.db_session:
+        h = b.Holder[hpk]
+        return sorted((o.get_pk(), cname(o)) for o in getattr(h, 'many%d' % r))
+
+
+def unpickled_ref(b, hpk, c):
+    """pickle a Holder whose reference was never read, unpickle it in a new session, read the reference -> class id"""
+    import pickle
+    with b.orm.db_session:
+        data = pickle.dumps(b.Holder[hpk])
+    with b.orm.db_session:
+        try:
+            h = pickle.loads(data)
+            return cname(getattr(h, 'ref%d' % c))
+        except Exception as ex:
+            return 'EXC ' + type(ex).__name__
